@@ -145,6 +145,7 @@ func mapLocalSecondaryIndexDescriptionToDynamodb(input []types.LocalSecondaryInd
 	for i, si := range input {
 		lsi[i] = &dynamodb.LocalSecondaryIndexDescription{
 			IndexName: si.IndexName,
+			ItemCount: aws.Int64(si.ItemCount),
 			Projection: &dynamodb.Projection{
 				NonKeyAttributes: si.Projection.NonKeyAttributes,
 				ProjectionType:   si.Projection.ProjectionType,
